@@ -1,6 +1,6 @@
 (* C18 — card identity is a fixed function of the data the terminal reports.  Statements only. *)
 From Zvt Require Import Base Length Cp437 Encoding Codec Lookup Client ClientProps.
-From Zvt Require Import ClientLog ClientWire.
+From Zvt Require Import ClientLog ClientWire ClientSent.
 Open Scope N_scope.
 
 (* the canonical membership id: upper case; longer than 14 digits -> the last 14, a leading 000000 of
@@ -101,3 +101,10 @@ Proof. exact read_card_sends_the_configured_timeout. Qed.
 Print Assumptions C18_read_card_request.
 Print Assumptions C18_refuted_for_idless_lists.
 Print Assumptions C18_application_list.
+
+(* and it is the only request a read_card ever writes, on every retry and every new connection: reading a card never
+   starts a payment *)
+Theorem C18_read_card_writes_only_its_request : forall cfg w,
+  sent_in (fun b => housekeeping cfg b \/ b = read_card_req cfg) w (snd (read_card cfg w)).
+Proof. exact read_card_exact_vocabulary. Qed.
+Print Assumptions C18_read_card_writes_only_its_request.
